@@ -102,6 +102,9 @@ func DrawOutcome(c *choice.Stream, v primitive.ProtocolVersion) OutcomeSpec {
 	case 15:
 		return OutcomeSpec{Outcome: Outcome{Kind: OutSilentDrop, Name: "silent_drop"}, Class: ClsConnLoss, MaybeApplied: true}
 	default:
+		if c.Choose("hang?", 5) == 4 {
+			return OutcomeSpec{Outcome: Outcome{Kind: OutHang, Name: "hang"}, Class: ClsConnLoss, MaybeApplied: true}
+		}
 		return OutcomeSpec{Outcome: Outcome{Kind: OutDropNow, Name: "drop_now"}, Class: ClsConnLoss, MaybeApplied: true}
 	}
 }
